@@ -57,22 +57,26 @@ def main():
                 fired = r.returncode == 1 and f"VIOLATION property={prop}" in out
                 named = all(e in out for e in m.get("expect", []))
                 broken = "BROKEN" in out
-                ok = ok and fired and named and not broken
-            status = "CAUGHT" if ok else "MISSED"
+                if m.get("benign"):
+                    # behaviour-preserving refactor: the check must stay silent
+                    ok = ok and r.returncode == 0 and "VIOLATION" not in out and not broken
+                else:
+                    ok = ok and fired and named and not broken
+            status = ("SILENT" if ok else "FALSE-ALARM") if m.get("benign") else ("CAUGHT" if ok else "MISSED")
         except Exception as e:
             status = "ERROR"; outs = [str(e)]
         finally:
             for p, src in saved.items():
                 open(p, "w").write(src)
         print(f"{status:7} {m['name']:50} {','.join(m['props'])} {time.time()-t0:.0f}s", flush=True)
-        if status != "CAUGHT":
+        if status not in ("CAUGHT", "SILENT"):
             print("   " + "\n   ".join("\n".join(outs).strip().splitlines()[-12:]))
         results.append((m["name"], status))
     if not keep:
         sh("git", "-C", "/repo", "worktree", "remove", "--force", WT)
         shutil.rmtree(CACHE, ignore_errors=True)
-    bad = [r for r in results if r[1] != "CAUGHT"]
-    print(f"selftest: {len(results)-len(bad)}/{len(results)} mutations caught")
+    bad = [r for r in results if r[1] not in ("CAUGHT", "SILENT")]
+    print(f"selftest: {len(results)-len(bad)}/{len(results)} as expected (mutations caught, benign refactors silent)")
     return 1 if bad else 0
 
 if __name__ == "__main__":
